@@ -77,3 +77,9 @@ def Read(text, strict=False):
         from .. Error import RINGReaderError
         raise RINGReaderError('RING input is nested too deeply for the '
                               'recursive-descent reader')
+    except OverflowError:
+        # e.g. an absurd radical count next to the fractional electron count
+        # of an aromatic bond in the electron balance
+        from .. Error import RINGReaderError
+        raise RINGReaderError('RING input contains a number too large to '
+                              'be processed')
